@@ -639,7 +639,8 @@ Proof.
                  Phi KBalanced N (bal_next s (p_any s) (p_summary s)
                                     (p_chunk_start s + p_chunk_size s)) (tc_len best) + 1
                  <= Phi KBalanced N s (tc_len best)).
-  { apply bal_next_ok; try assumption; try lia. rewrite Hst1, Hcst. ring. }
+  { apply bal_next_ok; [exact Hc | exact Hf | lia | exact Hph | lia | reflexivity | exact Hzt
+                       | rewrite Hst1, Hcst; ring | lia]. }
   unfold balanced_body. cbv zeta.
   rewrite s_count_0 by lia.
   destruct (negb (ntr (p_summary s) (p_i1 s) * p_chunk_size s =? p_chunk_start s)) eqn:Eas.
@@ -656,7 +657,7 @@ Proof.
     intros o. cbv zeta. destruct o as [|[|]]; cbv beta iota; try exact Hrej.
     assert (Hz' : zlen (s_clear (p_summary s) (p_i1 s)) = zlen (p_summary s))
       by (apply s_clear_zlen; lia).
-    apply bal_next_ok; try assumption; try lia.
+    apply bal_next_ok; [exact Hc | exact Hf | lia | exact Hph | lia | exact Hz' | exact Hzt | | ].
     + rewrite s_clear_not_tr by lia. rewrite s_clear_ntr_ge by lia. exact Hcst.
     + cbn [b2z]. lia.
   - (* unbalanced chunk: look for the partner *)
@@ -685,10 +686,454 @@ Proof.
         by (apply s_clear_zlen; lia).
       assert (Hz' : zlen (s_clear (s_clear (p_summary s) (p_i1 s)) rhs) = zlen (p_summary s)).
       { rewrite s_clear_zlen by lia. exact Hz1. }
-      apply bal_next_ok; try assumption; try lia.
+      apply bal_next_ok; [exact Hc | exact Hf | lia | exact Hph | lia | exact Hz' | exact Hzt | | ].
       * destruct (Z.eq_dec rhs (p_i1 s)) as [Er|Er].
         -- rewrite Er. rewrite s_clear_not_tr by lia. rewrite !s_clear_ntr_ge by lia. exact Hcst.
         -- rewrite s_clear_ntr_ge by lia. rewrite s_clear_not_tr by lia.
            rewrite s_clear_ntr_ge by lia. exact Hcst.
       * cbn [b2z]. lia.
 Qed.
+
+(* ------------------------------------------------------------------ *)
+(* 8. the non-proposing transitions                                    *)
+(* ------------------------------------------------------------------ *)
+
+Definition bump (s : pstate) : pstate :=
+  {| p_chunk_size := p_chunk_size s; p_final := p_final s; p_deadline := p_deadline s;
+     p_reads := S (p_reads s); p_any := p_any s; p_phase := p_phase s;
+     p_summary := p_summary s; p_chunk_start := p_chunk_start s; p_i1 := p_i1 s;
+     p_i2 := p_i2 s; p_i3 := p_i3 s; p_tables := p_tables s |}.
+
+Lemma read_clock_cases : forall clk s e s1, read_clock clk s = (e, s1) -> s1 = s \/ s1 = bump s.
+Proof.
+  intros clk s e s1 H. unfold read_clock in H. destruct (p_deadline s) as [d|] eqn:Ed.
+  - injection H as _ H. right. subst s1. unfold bump. rewrite Ed. reflexivity.
+  - injection H as _ H. left. symmetry. exact H.
+Qed.
+
+Lemma pinv_bump : forall kind s, pinv kind s -> pinv kind (bump s).
+Proof.
+  intros kind s [Hc Hf Hl]. constructor; [exact Hc | exact Hf |].
+  intros Hph. specialize (Hl Hph). destruct kind; exact Hl.
+Qed.
+
+(* facts shared by s and the state after a clock read *)
+Record same (s s1 : pstate) : Prop := {
+  sm_c : p_chunk_size s1 = p_chunk_size s;
+  sm_cst : p_chunk_start s1 = p_chunk_start s;
+  sm_ph : p_phase s1 = p_phase s;
+  sm_any : p_any s1 = p_any s;
+  sm_fin : p_final s1 = p_final s;
+  sm_phi : forall kind N L, Phi kind N s1 L = Phi kind N s L;
+  sm_need : forall kind L, need kind s1 L = need kind s L;
+  sm_inv : forall kind, pinv kind s -> pinv kind s1
+}.
+
+Lemma read_clock_same : forall clk s e s1, read_clock clk s = (e, s1) -> same s s1.
+Proof.
+  intros clk s e s1 H. destruct (read_clock_cases clk s e s1 H) as [E|E]; subst s1.
+  - constructor; try reflexivity. intros kind Hi. exact Hi.
+  - constructor; try reflexivity;
+      try (intros kind L; destruct kind; reflexivity);
+      try (intros kind N L; destruct kind; reflexivity).
+    intros kind Hi. apply pinv_bump. exact Hi.
+Qed.
+
+Lemma div_le_self : forall L c, 0 <= L -> 1 <= c -> 0 <= L / c <= L.
+Proof.
+  intros L c HL Hc. split; [apply Z.div_pos; lia|].
+  apply Z.div_le_upper_bound; [lia | nia].
+Qed.
+
+Lemma NT_pos : forall L c, 0 <= L -> 1 <= c -> 4 <= NT L c.
+Proof.
+  intros L c HL Hc. unfold NT. pose proof (div_le_self L c HL Hc).
+  pose proof (Z.log2_nonneg c). lia.
+Qed.
+
+Lemma NA_pos : forall L c any, 0 <= L -> 1 <= c -> 1 <= NA L c any.
+Proof.
+  intros L c any HL Hc. unfold NA. pose proof (NT_pos L c HL Hc) as H.
+  destruct any; [lia|]. unfold NT. pose proof (div_le_self L c HL Hc).
+  pose proof (Z.log2_nonneg c). lia.
+Qed.
+
+Lemma rem_nonneg : forall kind s L, 0 <= rem kind s L.
+Proof. intros kind s L. unfold rem. destruct kind; lia. Qed.
+
+Lemma need_pos : forall kind s L, 0 <= L -> 1 <= p_chunk_size s -> 1 <= need kind s L.
+Proof.
+  intros kind s L HL Hc. unfold need.
+  pose proof (NT_pos L _ HL Hc). pose proof (NA_pos L _ (p_any s) HL Hc).
+  pose proof (rem_nonneg kind s L). destruct (p_phase s); lia.
+Qed.
+
+Lemma log2_half : forall c, 2 <= c -> Z.log2 (py_shr c 1) = Z.log2 c - 1.
+Proof.
+  intros c Hc. unfold py_shr. rewrite Z.log2_shiftr by lia.
+  pose proof (Z.log2_le_mono 2 c ltac:(lia)) as H. change (Z.log2 2) with 1 in H. lia.
+Qed.
+
+Lemma half_ge1 : forall c, 2 <= c -> 1 <= py_shr c 1 /\ 2 * py_shr c 1 <= c.
+Proof.
+  intros c Hc. rewrite py_shr_1. split.
+  - apply Z.div_le_lower_bound; lia.
+  - apply Z.mul_div_le. lia.
+Qed.
+
+Lemma NT_half : forall L c, 0 <= L -> 2 <= c ->
+  NT L (py_shr c 1) + L / c + 4 <= NT L c.
+Proof.
+  intros L c HL Hc. unfold NT. rewrite log2_half by exact Hc.
+  destruct (half_ge1 c Hc) as [Hh1 Hh2].
+  assert (Hq : 2 * (L / c) <= L / py_shr c 1).
+  { apply Z.div_le_lower_bound; [lia|].
+    pose proof (Z.mul_div_le L c ltac:(lia)) as Hm.
+    pose proof (Z.div_pos L c HL ltac:(lia)) as Hq0. nia. }
+  lia.
+Qed.
+
+Lemma after_pass_spec : forall cfg clk s s', after_pass cfg clk s = Some s' ->
+  p_phase s' = PTop /\ p_final s' = p_final s /\
+  ((p_any s = true /\ p_chunk_size s' = p_chunk_size s) \/
+   (p_final s < p_chunk_size s /\ p_chunk_size s' = py_shr (p_chunk_size s) 1)).
+Proof.
+  intros cfg clk s s' H. unfold after_pass in H.
+  destruct (read_clock clk s) as [e s1] eqn:Erc.
+  destruct (read_clock_same clk s e s1 Erc) as [Ec _ _ Ea Ef _ _ _].
+  destruct e; [discriminate H|]. cbv zeta in H.
+  destruct (p_any s1 &&
+            match c_repeat cfg with
+            | Always => true
+            | Last => p_chunk_size s1 <=? p_final s1
+            | Never => false
+            end) eqn:E1.
+  - injection H as H. subst s'. psimpl. apply andb_true_iff in E1. destruct E1 as [E1 _].
+    split; [reflexivity|]. split; [exact Ef|]. left. split; [congruence | exact Ec].
+  - destruct (p_chunk_size s1 <=? p_final s1) eqn:E2; [discriminate H|].
+    injection H as H. subst s'. psimpl.
+    split; [reflexivity|]. split; [exact Ef|]. right. split; [lia|]. rewrite Ec. reflexivity.
+Qed.
+
+Lemma after_pass_ok : forall kind N cfg clk s s' L,
+  pinv kind s -> p_phase s = PAfter -> 0 <= L -> 0 <= N -> after_pass cfg clk s = Some s' ->
+  pinv kind s' /\ Phi kind N s' L <= Phi kind N s L /\ need kind s' L + 1 <= need kind s L.
+Proof.
+  intros kind N cfg clk s s' L [Hc Hf _] Hph HL HN H.
+  destruct (after_pass_spec cfg clk s s' H) as (Hp' & Hf' & Hcase).
+  unfold Phi, need, Aw. rewrite Hph, Hp'.
+  destruct Hcase as [[Hany Hc']|[Hlt Hc']].
+  - split.
+    + constructor; [lia | lia |]. intros Hx. rewrite Hp' in Hx. discriminate Hx.
+    + rewrite Hc', Hany. cbn [b2z]. unfold NA. lia.
+  - assert (H2 : 2 <= p_chunk_size s) by lia.
+    destruct (half_ge1 _ H2) as [Hh1 Hh2].
+    pose proof (NT_half L _ HL H2) as Hnt.
+    pose proof (div_le_self L _ HL Hc) as Hd.
+    split.
+    + constructor; [lia | lia |]. intros Hx. rewrite Hp' in Hx. discriminate Hx.
+    + rewrite Hc'. rewrite log2_half by exact H2. split.
+      * apply phi_le; [|exact HN]. destruct (p_any s); cbn [b2z]; lia.
+      * unfold NA. destruct (p_any s); lia.
+Qed.
+
+Lemma dru : forall L c, 0 <= L -> 1 <= c ->
+  exists nc, divide_rounding_up L c = Ok nc /\ 0 <= nc <= L /\ nc <= L / c + 1.
+Proof.
+  intros L c HL Hc. unfold divide_rounding_up, py_divmod.
+  assert (E : (c =? 0) = false) by lia. rewrite E. cbn [bind].
+  eexists. split; [reflexivity|].
+  pose proof (Z.div_mod L c ltac:(lia)) as Hdm.
+  pose proof (Z.mod_pos_bound L c ltac:(lia)) as Hmb.
+  pose proof (Z.div_pos L c HL ltac:(lia)) as Hq.
+  unfold truthy_Z. destruct (L mod c =? 0) eqn:Em; cbn [negb]; nia.
+Qed.
+
+Lemma repeat_true_tr : forall n i, 0 <= i < n -> tr_at (py_repeat true n) i.
+Proof.
+  intros n i Hi. split; [lia|]. unfold py_repeat.
+  assert (H : forall k j, (j < k)%nat -> nth_error (repeat true k) j = Some true).
+  { induction k as [|k IH]; intros j Hj; [lia|]. destruct j as [|j]; [reflexivity|].
+    cbn [repeat nth_error]. apply IH. lia. }
+  apply H. lia.
+Qed.
+
+Lemma py_repeat_zlen : forall (A : Type) (x : A) n, 0 <= n -> zlen (py_repeat x n) = n.
+Proof. intros A x n Hn. unfold zlen, py_repeat. rewrite repeat_length. lia. Qed.
+
+Lemma s_index_from_at : forall l pos k, nth_error l k = Some true ->
+  s_index_from l pos (pos + Z.of_nat k) = Some (pos + Z.of_nat k).
+Proof.
+  induction l as [|b r IH]; intros pos k H; [destruct k; discriminate H|].
+  destruct k as [|k].
+  - cbn in H. injection H as H. subst b. cbn [s_index_from].
+    assert (E : (pos + Z.of_nat 0 <=? pos) = true) by lia. rewrite E. cbn [andb].
+    f_equal. lia.
+  - cbn [nth_error] in H. cbn [s_index_from].
+    assert (E : (pos + Z.of_nat (S k) <=? pos) = false) by lia. rewrite E.
+    rewrite andb_false_r.
+    replace (pos + Z.of_nat (S k)) with (pos + 1 + Z.of_nat k) by lia.
+    apply IH. exact H.
+Qed.
+
+Lemma s_index_at : forall l i, tr_at l i -> s_index l i = Some i.
+Proof.
+  intros l i [Hi H]. unfold s_index.
+  pose proof (s_index_from_at l 0 (Z.to_nat i) H) as Hs.
+  replace (0 + Z.of_nat (Z.to_nat i)) with i in Hs by lia. exact Hs.
+Qed.
+
+Lemma tables_total : forall (B : Type) (parts : list bytes) (g : bytes -> B) (l : list Z),
+  (forall i, In i l -> 0 <= i < zlen parts) ->
+  exists tb, flat_mapM (fun i => p <- py_index parts i ;; Ok [g p]) l = Ok tb /\
+             length tb = length l.
+Proof.
+  intros B parts g. induction l as [|i l IH]; intros Hin.
+  - exists []. split; reflexivity.
+  - destruct (IH (fun j Hj => Hin j (or_intror Hj))) as (tb & Htb & Hlen).
+    destruct (py_index_total _ parts i (Hin i (or_introl eq_refl))) as [p Hp].
+    exists (g p :: tb). cbn [flat_mapM]. rewrite Hp. cbn [bind]. rewrite Htb. cbn [bind app].
+    split; [reflexivity|]. cbn [length]. lia.
+Qed.
+
+Lemma py_range_in : forall n i, In i (py_range n) -> 0 <= i < n.
+Proof.
+  intros n i H. unfold py_range in H. apply in_map_iff in H. destruct H as (k & Hk & Hin).
+  apply in_seq in Hin. lia.
+Qed.
+
+Lemma py_range_length : forall n, 0 <= n -> zlen (py_range n) = n.
+Proof. intros n Hn. unfold zlen, py_range. rewrite map_length, seq_length. lia. Qed.
+
+Lemma tc_len_le_parts : forall t, tc_len t <= zlen (tc_parts t).
+Proof. intros t. unfold tc_len, count_false. pose proof (zlen_nonneg _ (filter negb (tc_red t))). lia. Qed.
+
+Lemma pass_start_ok : forall kind N s best,
+  wf best -> pinv kind s -> p_phase s = PTop -> tc_len best + 1 <= N ->
+  exists s', pass_start kind s best = Ok s' /\ pinv kind s' /\
+    Phi kind N s' (tc_len best) <= Phi kind N s (tc_len best) /\
+    need kind s' (tc_len best) + 1 <= need kind s (tc_len best).
+Proof.
+  intros kind N s best Hwf [Hc Hf _] Hph HN.
+  pose proof (tc_len_nonneg best Hwf) as HL.
+  destruct (dru (tc_len best) (p_chunk_size s) HL Hc) as (nc & Hnc & Hnc1 & Hnc2).
+  pose proof (div_le_self (tc_len best) _ HL Hc) as Hd.
+  pose proof (Z.log2_nonneg (p_chunk_size s)) as Hlg.
+  unfold pass_start. rewrite Hnc. cbn [bind].
+  (* the "too few chunks" exit *)
+  assert (Hfew : pinv kind (upd s false PAfter [] 0 0 0 0) /\
+    Phi kind N (upd s false PAfter [] 0 0 0 0) (tc_len best) <= Phi kind N s (tc_len best) /\
+    need kind (upd s false PAfter [] 0 0 0 0) (tc_len best) + 1 <= need kind s (tc_len best)).
+  { split; [apply pinv_upd_after; assumption|].
+    unfold Phi, need, Aw. psimpl. rewrite Hph. cbn [b2z]. unfold NA. split; [|lia].
+    apply phi_le; lia. }
+  pose proof (py_repeat_zlen bool true nc ltac:(lia)) as Hzl.
+  destruct kind.
+  - destruct (nc <? 3) eqn:E3; [eexists; split; [reflexivity | exact Hfew]|].
+    eexists. split; [reflexivity|].
+    pose proof (repeat_true_tr nc 0 ltac:(lia)) as Ht0.
+    pose proof (repeat_true_tr nc 1 ltac:(lia)) as Ht1.
+    pose proof (repeat_true_tr nc 2 ltac:(lia)) as Ht2.
+    split; [|split].
+    + apply pinv_upd_loop; try assumption. cbn [loop_inv]. psimpl.
+      split; [exact Ht0|]. split; [exact Ht1|]. split; [lia|].
+      split; [exact (s_index_at _ _ Ht2)|].
+      pose proof (tr_at_step _ _ Ht0) as Hs. rewrite ntr_0 in Hs.
+      change (0 + 1) with 1 in Hs. rewrite Hs. lia.
+    + unfold Phi, Aw, Tm. psimpl. rewrite Hph. cbn [b2z]. rewrite Hzl. nia.
+    + unfold need, rem, NA. psimpl. rewrite Hph. lia.
+  - destruct (nc <? 2) eqn:E2; [eexists; split; [reflexivity | exact Hfew]|].
+    pose proof (tc_len_le_parts best) as Hparts.
+    destruct (tables_total _ (tc_parts best)
+                (fun p => (count_diff p 123 125, count_diff p 91 93, count_diff p 40 41))
+                (py_range nc)) as (tb & Htb & Hlen).
+    { intros i Hin. apply py_range_in in Hin. lia. }
+    rewrite Htb. cbn [bind].
+    eexists. split; [reflexivity|].
+    pose proof (repeat_true_tr nc 0 ltac:(lia)) as Ht0.
+    assert (Hztb : zlen tb = nc).
+    { pose proof (py_range_length nc ltac:(lia)) as Hr. unfold zlen in *. lia. }
+    split; [|split].
+    + constructor; psimpl; try assumption. intros _. cbn [loop_inv]. psimpl.
+      split; [exact Ht0|]. split; [lia|]. rewrite ntr_0. lia.
+    + unfold Phi, Aw, Tm. psimpl. rewrite Hph. cbn [b2z]. rewrite Hzl. nia.
+    + unfold need, rem, NA. psimpl. rewrite Hph.
+      assert (Hq : (tc_len best - 0 + p_chunk_size s - 1) / p_chunk_size s
+                   <= tc_len best / p_chunk_size s + 1).
+      { replace (tc_len best - 0 + p_chunk_size s - 1)
+          with ((tc_len best - 1) + 1 * p_chunk_size s) by ring.
+        rewrite Z.div_add by lia.
+        pose proof (Z.div_le_mono (tc_len best - 1) (tc_len best) (p_chunk_size s)
+                      ltac:(lia) ltac:(lia)). lia. }
+      lia.
+Qed.
+
+(* ------------------------------------------------------------------ *)
+(* 9. the fuelled loop over the non-proposing transitions              *)
+(* ------------------------------------------------------------------ *)
+
+Definition post (kind : pkind) (N : Z) (fuel : nat) (s : pstate) (best : tcase)
+           (r : step pstate) : Prop :=
+  match r with
+  | Done => True
+  | Fail e => e = OutOfFuel /\ Z.of_nat fuel < need kind s (tc_len best)
+  | RawWrite _ _ => False
+  | Propose t k => prop_ok kind N s best t k
+  end.
+
+Lemma cont_ok_weaken : forall kind N s s' best t k,
+  cont_ok kind N s' best t k -> Phi kind N s' (tc_len best) <= Phi kind N s (tc_len best) ->
+  cont_ok kind N s best t k.
+Proof.
+  intros kind N s s' best t k H Hle o. destruct (H o) as [Hi Hp]. cbv zeta in Hi, Hp.
+  split; [exact Hi|]. cbv zeta. lia.
+Qed.
+
+Lemma prop_ok_weaken : forall kind N s s' best t k,
+  prop_ok kind N s' best t k -> Phi kind N s' (tc_len best) <= Phi kind N s (tc_len best) ->
+  prop_ok kind N s best t k.
+Proof.
+  intros kind N s s' best t k (Hw & Hs & Hl & Hc) Hle.
+  split; [exact Hw|]. split; [exact Hs|]. split; [exact Hl|].
+  exact (cont_ok_weaken kind N s s' best t k Hc Hle).
+Qed.
+
+Lemma post_step : forall kind N f s s' best r,
+  post kind N f s' best r ->
+  Phi kind N s' (tc_len best) <= Phi kind N s (tc_len best) ->
+  need kind s' (tc_len best) + 1 <= need kind s (tc_len best) ->
+  post kind N (S f) s best r.
+Proof.
+  intros kind N f s s' best r H HPhi Hneed. destruct r as [t k|b s2| |e]; cbn [post] in *.
+  - exact (prop_ok_weaken kind N s s' best t k H HPhi).
+  - exact H.
+  - exact I.
+  - destruct H as [He Hf]. split; [exact He | lia].
+Qed.
+
+Lemma post_prop : forall kind N f s s' best r,
+  match r with Propose t k => prop_ok kind N s' best t k | _ => False end ->
+  Phi kind N s' (tc_len best) <= Phi kind N s (tc_len best) ->
+  post kind N f s best r.
+Proof.
+  intros kind N f s s' best r H HPhi. destruct r as [t k|b s2| |e]; try contradiction.
+  cbn [post]. exact (prop_ok_weaken kind N s s' best t k H HPhi).
+Qed.
+
+Lemma set_after_ok : forall kind N s L, pinv kind s -> p_phase s = PLoop -> 0 <= L ->
+  pinv kind (set_pp PAfter s) /\
+  Phi kind N (set_pp PAfter s) L <= Phi kind N s L /\
+  need kind (set_pp PAfter s) L + 1 <= need kind s L.
+Proof.
+  intros kind N s L [Hc Hf Hl] Hph HL. specialize (Hl Hph).
+  pose proof (Tm_nonneg kind s Hl) as HT. pose proof (rem_nonneg kind s L) as Hr.
+  split; [|split].
+  - constructor; psimpl; try assumption. intros Hx. discriminate Hx.
+  - unfold Phi, Aw. psimpl. rewrite Hph. lia.
+  - unfold need. psimpl. rewrite Hph. lia.
+Qed.
+
+Lemma pdrive_ok : forall kind cfg clk N fuel s best,
+  wf best -> tc_len best + 1 <= N -> pinv kind s ->
+  post kind N fuel s best (pdrive fuel kind cfg clk s best).
+Proof.
+  intros kind cfg clk N. induction fuel as [|f IH]; intros s best Hwf HN Hi.
+  - cbn [pdrive post]. split; [reflexivity|].
+    pose proof (need_pos kind s (tc_len best) (tc_len_nonneg best Hwf) (pi_c _ _ Hi)). lia.
+  - pose proof (tc_len_nonneg best Hwf) as HL.
+    cbn [pdrive]. destruct (p_phase s) eqn:Hph.
+    + (* PTop *)
+      destruct (pass_start_ok kind N s best Hwf Hi Hph HN) as (s' & Hps & Hi' & HPhi & Hneed).
+      rewrite Hps.
+      exact (post_step kind N f s s' best _ (IH s' best Hwf HN Hi') HPhi Hneed).
+    + (* PLoop *)
+      destruct (set_after_ok kind N s (tc_len best) Hi Hph HL) as (Hia & HPa & Hna).
+      destruct (negb match kind with
+                     | KAround => p_chunk_start s + p_chunk_size s <? tc_len best
+                     | KBalanced => p_chunk_start s <? tc_len best
+                     end) eqn:Econt.
+      { exact (post_step kind N f s _ best _ (IH _ best Hwf HN Hia) HPa Hna). }
+      destruct (read_clock clk s) as [expired s1] eqn:Erc.
+      destruct (read_clock_same clk s expired s1 Erc) as [Ec Ecst Eph Eany Efin EPhi Eneed Einv].
+      pose proof (Einv kind Hi) as Hi1.
+      assert (Hph1 : p_phase s1 = PLoop) by congruence.
+      destruct expired.
+      { destruct (set_after_ok kind N s1 (tc_len best) Hi1 Hph1 HL) as (Hia1 & HPa1 & Hna1).
+        rewrite EPhi in HPa1. rewrite Eneed in Hna1.
+        exact (post_step kind N f s _ best _ (IH _ best Hwf HN Hia1) HPa1 Hna1). }
+      destruct kind.
+      * apply (post_prop KAround N (S f) s s1 best); [|rewrite EPhi; lia].
+        apply around_propose_ok; try assumption; [lia|].
+        rewrite Ec, Ecst. lia.
+      * pose proof (balanced_body_ok N s1 best Hwf ltac:(lia) Hi1 Hph1
+                      ltac:(rewrite Ecst; lia)) as Hb.
+        destruct (balanced_body s1 best) as [st|s2].
+        -- apply (post_prop KBalanced N (S f) s s1 best); [exact Hb | rewrite EPhi; lia].
+        -- destruct Hb as (Hi2 & HP2 & Hn2). rewrite EPhi in HP2. rewrite Eneed in Hn2.
+           exact (post_step KBalanced N f s s2 best _ (IH s2 best Hwf HN Hi2) HP2 Hn2).
+    + (* PAfter *)
+      destruct (after_pass cfg clk s) as [s'|] eqn:Eap; [|exact I].
+      destruct (after_pass_ok kind N cfg clk s s' (tc_len best) Hi Hph HL ltac:(lia) Eap)
+        as (Hi' & HPhi & Hneed).
+      exact (post_step kind N f s s' best _ (IH s' best Hwf HN Hi') HPhi Hneed).
+Qed.
+
+(* ------------------------------------------------------------------ *)
+(* 10. C04: the pair strategies only delete                            *)
+(* ------------------------------------------------------------------ *)
+
+Lemma lpo2st_ge1 : forall n, 1 <= largest_power_of_two_smaller_than n.
+Proof.
+  intros n. unfold largest_power_of_two_smaller_than. cbv zeta.
+  pose proof (top_bit_positive n) as Hp.
+  destruct ((py_shl 1 (Z.max (bit_length n - 1) 0) =? n) && (n >? 1)) eqn:E; [|lia].
+  apply andb_true_iff in E. destruct E as [E1 E2].
+  rewrite py_shr_1. apply Z.div_le_lower_bound; lia.
+Qed.
+
+Lemma pstart_pinv : forall kind cfg clk tc0, 1 <= c_max cfg -> pinv kind (pstart cfg clk tc0).
+Proof.
+  intros kind cfg clk tc0 Hmax. unfold pstart. constructor; psimpl.
+  - pose proof (lpo2st_ge1 (tc_len tc0)). lia.
+  - lia.
+  - intros Hx. discriminate Hx.
+Qed.
+
+Lemma pairs_deleting_pinv : forall kind cfg clk,
+  deleting (pairs kind cfg clk) (fun st _ => pinv kind st).
+Proof.
+  intros kind cfg clk st best Hi Hwf. cbn [pairs s_next]. unfold pnext.
+  pose proof (pdrive_ok kind cfg clk (tc_len best + 1) (pairs_fuel st best) st best Hwf
+                ltac:(lia) Hi) as H.
+  destruct (pdrive (pairs_fuel st best) kind cfg clk st best) as [t k|b s'| |e]; cbn [post] in H.
+  - destruct H as (_ & Hs & _ & Hc). split; [exact Hs|].
+    split; [exact (proj1 (Hc Skipped))|].
+    split; [exact (proj1 (Hc (Tested false))) | exact (proj1 (Hc (Tested true)))].
+  - exact H.
+  - exact I.
+  - exact I.
+Qed.
+
+Lemma pairs_is_deleting :
+  forall kind cfg clk tc0, 1 <= c_max cfg ->
+    exists I, I (pstart cfg clk tc0) tc0 /\ deleting (pairs kind cfg clk) I.
+Proof.
+  intros kind cfg clk tc0 Hmax. exists (fun st _ => pinv kind st).
+  split; [apply pstart_pinv; exact Hmax | apply pairs_deleting_pinv].
+Qed.
+
+Lemma pairs_only_deletes :
+  forall kind cfg clk verdict fuel tc0 file0,
+    wf tc0 -> content tc0 = file0 -> 1 <= c_max cfg ->
+    let w := result_world (run (pairs kind cfg clk) verdict fuel tc0 file0) in
+    tests_are_deletions tc0 (chron w) /\ exists t, sub_reducible tc0 t /\ w_file w = content t.
+Proof.
+  intros kind cfg clk verdict fuel tc0 file0 Hwf Hc Hmax.
+  destruct (pairs_is_deleting kind cfg clk tc0 Hmax) as (I & HI0 & Hdel).
+  apply (deleting_runs_only_delete pstate (pairs kind cfg clk) I verdict fuel tc0 file0
+           Hwf Hc HI0 Hdel).
+Qed.
+
+Print Assumptions pairs_is_deleting.
+Print Assumptions pairs_only_deletes.
+Print Assumptions pdrive_ok.
